@@ -427,6 +427,21 @@ C19f(line, pre, exp) ==
   \cup UNION {IF \E r \in {exp.res[g]} : r.branch \in {"force_fatal", "down_fatal", "idle_fatal"} THEN {"C19:" \o exp.res[g].branch} ELSE {} : g \in Groups(pre)}
 
 -----------------------------------------------------------------------------
+\* C18 (controller level) — a fleet scale-up that fails leaks nothing and takes no cool-down lock
+FleetCallsOf(line, g) ==
+  LET cs == SelectSeq(line.calls, LAMBDA c : c.g = g /\ c.op \in {"create_fleet", "fleet_ids", "attach", "terminate_instances"}) IN
+  [i \in 1..Len(cs) |-> [op |-> cs[i].op, ok |-> cs[i].ok, a |-> cs[i].a, b |-> cs[i].b, r |-> [k \in 1..Len(cs[i].r) |-> <<cs[i].r[k][1], cs[i].r[k][2]>>], s |-> cs[i].s]]
+LockTakenNow(pre, post, g) == post.groups[g].ctl.lockAt = pre.now /\ post.groups[g].ctl.isLocked /\ post.groups[g].accepted = pre.now
+C18v(line, pre, post) ==
+  UNION {IF ~pre.groups[g].cfg.fleet \/ FleetCallsOf(line, g) = <<>> THEN {} ELSE
+         {<<"C18", x, g, "">> : x \in C18bad([fleet |-> TRUE], FleetCallsOf(line, g), IF LockTakenNow(pre, post, g) THEN "nil" ELSE "error") \ {"success-reported-as-failure"}}
+        : g \in Groups(pre)}
+C18f(line, pre, post) ==
+  UNION {IF ~pre.groups[g].cfg.fleet \/ FleetCallsOf(line, g) = <<>> THEN {} ELSE
+         (IF LockTakenNow(pre, post, g) THEN {"C18:ctl-fleet-accepted"} ELSE {"C18:ctl-fleet-failed-no-lock"})
+        : g \in Groups(pre)}
+
+-----------------------------------------------------------------------------
 \* C20 — a scan never panics or wedges; only the documented condition stops the controller
 C20v(line, pre, exp) ==
   (IF line.panic THEN {<<"C20", "panic", "", line.panicMsg>>} ELSE {})
@@ -449,10 +464,10 @@ C20f(line, pre, exp) ==
 Violations(line, pre, post, exp) ==
   C01v(line, pre) \cup C02v(line, pre) \cup C03v(line, pre, post) \cup C04v(line, pre, post, exp) \cup C05v(line, pre)
   \cup C06v(line, pre) \cup C07v(line, pre, post, exp) \cup C08v(line, pre) \cup C09v(line, pre) \cup C10v(line, pre, exp)
-  \cup C11v(line, pre) \cup C12v(line, pre) \cup C12x(line, pre, exp) \cup C13v(line, pre) \cup C15v(line, pre, post) \cup C19v(line, pre, exp) \cup C20v(line, pre, exp)
+  \cup C11v(line, pre) \cup C12v(line, pre) \cup C12x(line, pre, exp) \cup C13v(line, pre) \cup C15v(line, pre, post) \cup C18v(line, pre, post) \cup C19v(line, pre, exp) \cup C20v(line, pre, exp)
 
 Facts(line, pre, post, exp) ==
   C01f(line, pre) \cup C02f(line, pre) \cup C03f(line, pre) \cup C04f(line, pre) \cup C05f(line, pre) \cup C06f(line, pre)
   \cup C07f(line, pre, exp) \cup C08f(line, pre) \cup C09f(line, pre) \cup C10f(line, pre) \cup C11f(line, pre, post, exp)
-  \cup C12f(line, pre) \cup C13f(line, pre) \cup C15f(line, pre) \cup C19f(line, pre, exp) \cup C20f(line, pre, exp)
+  \cup C12f(line, pre) \cup C13f(line, pre) \cup C15f(line, pre) \cup C18f(line, pre, post) \cup C19f(line, pre, exp) \cup C20f(line, pre, exp)
 =============================================================================
